@@ -1943,6 +1943,15 @@ func (p *Parser) hasValidIdent() bool {
 	return p.r == '[' // a[i]=x
 }
 
+// appendAssign appends as unless it is nil, which [Parser.getAssign] returns
+// after reporting an error.
+func appendAssign(assigns []*Assign, as *Assign) []*Assign {
+	if as == nil {
+		return assigns
+	}
+	return append(assigns, as)
+}
+
 func (p *Parser) getAssign(needEqual bool) *Assign {
 	as := &Assign{}
 	if p.eqlOffs > 0 { // foo=bar
@@ -2923,7 +2932,7 @@ func (p *Parser) callExpr(s *Stmt, w *Word, assign bool) {
 		ce.Args = ce.Args[:0]
 	}
 	if assign {
-		ce.Assigns = append(ce.Assigns, p.getAssign(true))
+		ce.Assigns = appendAssign(ce.Assigns, p.getAssign(true))
 	}
 loop:
 	for {
@@ -2933,7 +2942,7 @@ loop:
 			break loop
 		case _LitWord:
 			if len(ce.Args) == 0 && p.hasValidIdent() {
-				ce.Assigns = append(ce.Assigns, p.getAssign(true))
+				ce.Assigns = appendAssign(ce.Assigns, p.getAssign(true))
 				break
 			}
 			// Avoid failing later with the confusing "} can only be used to close a block".
@@ -2952,7 +2961,7 @@ loop:
 			ce.Args = append(ce.Args, w)
 		case _Lit:
 			if len(ce.Args) == 0 && p.hasValidIdent() {
-				ce.Assigns = append(ce.Assigns, p.getAssign(true))
+				ce.Assigns = appendAssign(ce.Assigns, p.getAssign(true))
 				break
 			}
 			ce.Args = append(ce.Args, p.wordAnyNumber())
